@@ -1381,6 +1381,13 @@ int32 matrixResumeSession(ssl_t *ssl)
     {
         return PS_ARG_FAIL;
     }
+    if (ssl->sessionIdLen != SSL_MAX_SESSION_ID_SIZE)
+    {
+        /* Every id this cache hands out is SSL_MAX_SESSION_ID_SIZE bytes
+           long. A shorter one (the first four bytes are just the table
+           index) must not address an entry. */
+        return PS_FAILURE;
+    }
     id = ssl->sessionId;
 
     i = (id[3] << 24) + (id[2] << 16) + (id[1] << 8) + id[0];
@@ -1400,8 +1407,7 @@ int32 matrixResumeSession(ssl_t *ssl)
         that as expired, too. */
     ageMsecs = psDiffMsecs(g_sessionTable[i].startTime, accessTime,
             ssl->userPtr);
-    if ((Memcmp(g_sessionTable[i].id, id,
-             (uint32) min(ssl->sessionIdLen, SSL_MAX_SESSION_ID_SIZE)) != 0) ||
+    if ((Memcmp(g_sessionTable[i].id, id, SSL_MAX_SESSION_ID_SIZE) != 0) ||
         ageMsecs < 0 || ageMsecs > SSL_SESSION_ENTRY_LIFE ||
         (g_sessionTable[i].majVer != psEncodeVersionMaj(GET_NGTD_VER(ssl)))
             || (g_sessionTable[i].minVer != psEncodeVersionMin(GET_NGTD_VER(ssl))))
